@@ -70,8 +70,9 @@ type Fact func(cond ssa.Value) (onTrue, onFalse bool)
 
 // withNot lifts a fact over the condition shapes the compiler produces for composite conditions: negation, and the
 // boolean phi of short-circuit && / || (also the `case a && b:` arms of a tagless switch):
-//   p = phi[false, ..., B]  (a && b):  p true  ⇒ every operand true   → the fact holds on the true edge if it holds on the true edge of any operand
-//   p = phi[true, ..., B]   (a || b):  p false ⇒ every operand false  → the fact holds on the false edge if it holds on the false edge of any operand
+//
+//	p = phi[false, ..., B]  (a && b):  p true  ⇒ every operand true   → the fact holds on the true edge if it holds on the true edge of any operand
+//	p = phi[true, ..., B]   (a || b):  p false ⇒ every operand false  → the fact holds on the false edge if it holds on the false edge of any operand
 func withNot(f Fact) Fact {
 	var g Fact
 	g = func(cond ssa.Value) (bool, bool) {
